@@ -43,6 +43,7 @@ def base_env():
     env["CARGO_NET_OFFLINE"] = "true"
     env["LD_LIBRARY_PATH"] = nightly_sysroot() + "/lib:" + env.get("LD_LIBRARY_PATH", "")
     env["RUSTFLAGS"] = RUSTFLAGS
+    env["CARGO_INCREMENTAL"] = "0"  # incremental would skip mir_promoted for green bodies
     env.pop("RUSTC_WRAPPER", None)
     return env
 
